@@ -99,9 +99,13 @@ void MPLS::write_serialization(uint8_t* buffer, uint32_t total_sz) {
     OutputMemoryStream stream(buffer, total_sz);
     // If we have a parent PDU, we might set the bottom-of-stack field
     if (parent_pdu()) {
-        // We'll set it if we either don't have a child or we have one and it's not MPLS
+        // We'll set it if we either don't have a child or we have one and it's not MPLS,
+        // and clear it if another label follows
         if (!inner_pdu() || inner_pdu()->pdu_type() != PDU::MPLS) {
             bottom_of_stack(1);
+        }
+        else {
+            bottom_of_stack(0);
         }
     }
     stream.write(header_);
